@@ -136,15 +136,23 @@ Proof.
     cbn [append_commit]. intros H. inversion H; subst. right. split; [reflexivity|]. eexists. eexists. reflexivity.
 Qed.
 
+(* what a short write puts into the file: the first half of the buffer *)
+Definition short_acts (acts : list waction) : list waction :=
+  match acts with
+  | WWrite off buf :: _ => [WWrite off (firstn (length buf / 2) buf)]
+  | _ => []
+  end.
+
 (* the same operation with a fault: an operation that does nothing is not
    affected; otherwise the result is an I/O error, the writer is rolled back,
-   and the write has happened (fsync fails) or not (write fails) *)
+   and the write has happened completely (fsync fails), to its first half
+   (short write) or not at all (write fails) *)
 Lemma do_fop_fault w op flt r w' acts :
   do_op w op = (r, w', acts) -> flt <> FNone ->
   do_fop w (op, flt) =
   match acts with
   | [] => (r, w', [])
-  | _ => (WErrIO, w, match flt with FSync => acts | _ => [] end)
+  | _ => (WErrIO, w, match flt with FSync => acts | FWriteShort => short_acts acts | FWrite | FNone => [] end)
   end.
 Proof.
   intros H Hf. unfold do_fop. cbn [fst snd]. destruct op as [es|]; cbn [do_op] in H.
@@ -153,10 +161,10 @@ Proof.
     destruct (too_big (e0 :: es0)); [inversion H; reflexivity|].
     destruct (append_entries w (e0 :: es0)) as [w1|]; [|inversion H; reflexivity].
     destruct (if needs_seal w1 then append_index w1 else Some w1) as [w2|]; [|inversion H; reflexivity].
-    cbn [append_commit] in H. inversion H; subst. destruct flt; [congruence| |]; reflexivity.
+    cbn [append_commit] in H. inversion H; subst. destruct flt; [congruence| | |]; reflexivity.
   - unfold force_seal in *. destruct (0 <? w_index_start w); [inversion H; reflexivity|].
     destruct (append_index w) as [w1|]; [|inversion H; reflexivity].
-    cbn [append_commit] in H. inversion H; subst. destruct flt; [congruence| |]; reflexivity.
+    cbn [append_commit] in H. inversion H; subst. destruct flt; [congruence| | |]; reflexivity.
 Qed.
 
 (* an operation that writes commits exactly one batch *)
@@ -190,17 +198,21 @@ Qed.
 (* The run is instrumented.  Operational part: the writer, the file as the
    process sees it, the file as of the last successful fsync, the writes
    issued since.  Ghost part: the batches of the operations that succeeded
-   (fs_bs), the batches of the writes that failed since the last success
-   (fs_pend; a failed operation that wrote nothing -- refused, or its write
-   failed -- leaves no trace anywhere), and whether every write ended below
-   2^32 (fs_ok). *)
+   (fs_bs); the batches whose COMPLETE write was issued and whose fsync failed
+   since the last success (fs_pend; a failed operation that wrote nothing --
+   refused, or its write failed outright -- leaves no trace anywhere, a SHORT
+   write leaves the first half of its bytes in the file and can never be
+   complete there); the batch of fs_pend, if any, that is complete in the file
+   right behind the acknowledged batches (fs_last: the last failed complete
+   write, unless a later short write damaged it); and whether every write
+   belonged to a batch that ends below 2^32 (fs_ok). *)
 Record fstate := {
   fs_w : wstate; fs_file : bytes; fs_sync : bytes; fs_pw : list (N * bytes);
-  fs_bs : list batch; fs_pend : list batch; fs_ok : bool }.
+  fs_bs : list batch; fs_pend : list batch; fs_last : list batch; fs_ok : bool }.
 
 Definition fstart (info : seginfo) (k0 : nat) : fstate :=
   {| fs_w := init_empty info; fs_file := zeros k0; fs_sync := zeros k0; fs_pw := [];
-     fs_bs := []; fs_pend := []; fs_ok := true |}.
+     fs_bs := []; fs_pend := []; fs_last := []; fs_ok := true |}.
 
 Fixpoint writes_of (acts : list waction) : list (N * bytes) :=
   match acts with
@@ -212,56 +224,73 @@ Fixpoint writes_of (acts : list waction) : list (N * bytes) :=
 Definition batch_fits (info : seginfo) (bs : list batch) (b : list batch) : bool :=
   len (image info (bs ++ b)) <? two32.
 
+(* the bytes w are in the image at offset p *)
+Definition on_disk (T : bytes) (p : N) (w : bytes) : Prop := sub (N.to_nat p) (length w) T = w.
+Definition on_diskb (T : bytes) (p : N) (w : bytes) : bool := beq_bytes (sub (N.to_nat p) (length w) T) w.
+
+Lemma on_diskb_spec T p w : on_diskb T p w = true <-> on_disk T p w.
+Proof. apply beq_bytes_eq. Qed.
+
 Definition fstep (st : fstate) (o : fop) : fstate :=
   let '(r, w', acts) := do_fop (fs_w st) o in
   let '(_, w1, _) := do_op (fs_w st) (fst o) in
   let b := op_batch (fs_w st) w1 (fst o) in       (* the batch the operation commits if it succeeds *)
+  let info := w_info (fs_w st) in
   let file' := apply_wactions (fs_file st) acts in
   match acts with
   | [] => {| fs_w := w'; fs_file := fs_file st; fs_sync := fs_sync st; fs_pw := fs_pw st;
-             fs_bs := fs_bs st; fs_pend := fs_pend st; fs_ok := fs_ok st |}
+             fs_bs := fs_bs st; fs_pend := fs_pend st; fs_last := fs_last st; fs_ok := fs_ok st |}
   | _ =>
-      let ok := fs_ok st && batch_fits (w_info (fs_w st)) (fs_bs st) b in
+      let ok := fs_ok st && batch_fits info (fs_bs st) b in
       match r with
       | WOk => {| fs_w := w'; fs_file := file'; fs_sync := file'; fs_pw := [];
-                  fs_bs := fs_bs st ++ b; fs_pend := []; fs_ok := ok |}
-      | _ => {| fs_w := w'; fs_file := file'; fs_sync := fs_sync st; fs_pw := fs_pw st ++ writes_of acts;
-                fs_bs := fs_bs st; fs_pend := fs_pend st ++ b; fs_ok := ok |}
+                  fs_bs := fs_bs st ++ b; fs_pend := []; fs_last := []; fs_ok := ok |}
+      | _ =>
+          match snd o with
+          | FWriteShort =>
+              (* half of the bytes are in the file: the batch is not a candidate; a
+                 complete failed batch underneath survives only if the half write
+                 did not touch it *)
+              {| fs_w := w'; fs_file := file'; fs_sync := fs_sync st; fs_pw := fs_pw st ++ writes_of acts;
+                 fs_bs := fs_bs st; fs_pend := fs_pend st;
+                 fs_last := filter (fun d => on_diskb file' (len (image info (fs_bs st)))
+                                                      (batch_write info (cstate info (fs_bs st)) d))
+                                   (fs_last st);
+                 fs_ok := ok |}
+          | _ =>
+              {| fs_w := w'; fs_file := file'; fs_sync := fs_sync st; fs_pw := fs_pw st ++ writes_of acts;
+                 fs_bs := fs_bs st; fs_pend := fs_pend st ++ b; fs_last := b; fs_ok := ok |}
+          end
       end
   end.
 
 Definition frun_from (st : fstate) (ops : list fop) : fstate := fold_left fstep ops st.
 Definition frun (info : seginfo) (k0 : nat) (ops : list fop) : fstate := frun_from (fstart info k0) ops.
 
-(* the last failed write since the last success, if any *)
-Definition last_of (l : list batch) : list batch :=
-  match rev l with [] => [] | d :: _ => [d] end.
-
-Lemma last_of_snoc l d : last_of (l ++ [d]) = [d].
-Proof. unfold last_of. rewrite rev_app_distr. reflexivity. Qed.
-
 (* the invariant of such runs *)
 Record finv (info : seginfo) (st : fstate) : Prop := {
   fi_w : fs_w st = wst info (cstate info (fs_bs st));
   fi_wf : chain_wf info c0 (fs_bs st);
   fi_pend : Forall (bwf info (cstate info (fs_bs st))) (fs_pend st);
+  fi_last : Forall (bwf info (cstate info (fs_bs st))) (fs_last st);
+  fi_last1 : (length (fs_last st) <= 1)%nat;
   fi_file : exists R, fs_file st =
                       c_img (cstate info (fs_bs st)) ++
-                      match last_of (fs_pend st) with
+                      match fs_last st with
                       | [] => R
                       | d :: _ => batch_write info (cstate info (fs_bs st)) d ++ R
                       end;
   fi_sync : exists R0, fs_sync st = c_img (cstate info (fs_bs st)) ++ R0;
-  fi_pw : Forall2 (fun d w => w = (len (c_img (cstate info (fs_bs st))),
-                                   batch_write info (cstate info (fs_bs st)) d))
-                  (fs_pend st) (fs_pw st) }.
+  fi_pw : Forall (fun w => fst w = len (c_img (cstate info (fs_bs st)))) (fs_pw st) }.
 
 Lemma finv_start info k0 : finv info (fstart info k0).
 Proof.
-  constructor; cbn [fstart fs_w fs_file fs_sync fs_pw fs_bs fs_pend]; change (cstate info []) with c0.
+  constructor; cbn [fstart fs_w fs_file fs_sync fs_pw fs_bs fs_pend fs_last]; change (cstate info []) with c0.
   - symmetry. apply wst_c0.
   - exact I.
   - constructor.
+  - constructor.
+  - cbn. lia.
   - exists (zeros k0). reflexivity.
   - exists (zeros k0). reflexivity.
   - constructor.
@@ -271,7 +300,8 @@ Lemma fs_ok_step st o : fs_ok (fstep st o) = true -> fs_ok st = true.
 Proof.
   unfold fstep. destruct (do_fop (fs_w st) o) as [[r w'] acts].
   destruct (do_op (fs_w st) (fst o)) as [[r1 w1] acts1].
-  destruct acts as [|a0 ar]; [cbn; auto|]. destruct r; cbn [fs_ok]; intros H; apply andb_true_iff in H; tauto.
+  destruct acts as [|a0 ar]; [cbn; auto|].
+  destruct r; try destruct (snd o); cbn [fs_ok]; intros H; apply andb_true_iff in H; tauto.
 Qed.
 
 Lemma fs_ok_run ops : forall st, fs_ok (frun_from st ops) = true -> fs_ok st = true.
@@ -284,68 +314,100 @@ Lemma chain_wf_snoc info bs b :
   chain_wf info c0 bs -> bwf info (cstate info bs) b -> chain_wf info c0 (bs ++ [b]).
 Proof. intros H1 H2. apply chain_wf_app. split; [exact H1|]. cbn [chain_wf]. auto. Qed.
 
+Lemma filter_len_le {A} (f : A -> bool) l : (length (filter f l) <= length l)%nat.
+Proof. induction l as [|x l IH]; [reflexivity|]. cbn. destruct (f x); cbn; lia. Qed.
+
 Lemma fault_eq_dec (a b : wfault) : {a = b} + {a <> b}.
 Proof. decide equality. Qed.
 
 Lemma finv_step info st op flt :
   finv info st -> op_wf op -> fs_ok (fstep st (op, flt)) = true -> finv info (fstep st (op, flt)).
 Proof.
-  intros I Hwf Hok. destruct I as [Iw Iwf Ipend (R & Ifile) (R0 & Isync) Ipw].
+  intros I Hwf Hok. destruct I as [Iw Iwf Ipend Ilast Il1 (R & Ifile) (R0 & Isync) Ipw].
   set (s := cstate info (fs_bs st)) in *.
-  unfold fstep in Hok |- *. change (fst (op, flt)) with op in Hok |- *.
+  unfold fstep in Hok |- *. change (fst (op, flt)) with op in Hok |- *. change (snd (op, flt)) with flt in Hok |- *.
   destruct (do_op (fs_w st) op) as [[r1 w1] acts1] eqn:Eop.
   assert (Efop : do_fop (fs_w st) (op, flt) =
                  match flt with
                  | FNone => (r1, w1, acts1)
                  | _ => match acts1 with
                         | [] => (r1, w1, [])
-                        | _ => (WErrIO, fs_w st, match flt with FSync => acts1 | _ => [] end)
+                        | _ => (WErrIO, fs_w st,
+                                match flt with FSync => acts1 | FWriteShort => short_acts acts1 | _ => [] end)
                         end
                  end).
-  { destruct flt; [rewrite do_fop_none; exact Eop| |];
+  { destruct flt; [rewrite do_fop_none; exact Eop| | |];
       (rewrite (do_fop_fault _ _ _ _ _ _ Eop) by discriminate; reflexivity). }
   destruct (do_op_acts _ _ _ _ _ Eop) as [[-> ->]|(-> & off & buf & ->)].
   - (* nothing happens, whatever the fault *)
     assert (E : do_fop (fs_w st) (op, flt) = (r1, fs_w st, [])) by (rewrite Efop; destruct flt; reflexivity).
     rewrite E in *.
-    constructor; cbn [fs_w fs_file fs_sync fs_pw fs_bs fs_pend]; fold s;
-      [exact Iw|exact Iwf|exact Ipend|exists R; exact Ifile|exists R0; exact Isync|exact Ipw].
+    constructor; cbn [fs_w fs_file fs_sync fs_pw fs_bs fs_pend fs_last]; fold s;
+      [exact Iw|exact Iwf|exact Ipend|exact Ilast|exact Il1|exists R; exact Ifile|exists R0; exact Isync|exact Ipw].
   - (* the operation writes one batch b *)
     destruct (fault_eq_dec flt FWrite) as [->|Hnw].
-    { (* the write fails: nothing reaches the file, the writer is rolled back *)
+    { (* the write fails outright: nothing reaches the file, the writer is rolled back *)
       rewrite Efop.
-      constructor; cbn [fs_w fs_file fs_sync fs_pw fs_bs fs_pend]; fold s;
-        [exact Iw|exact Iwf|exact Ipend|exists R; exact Ifile|exists R0; exact Isync|exact Ipw]. }
+      constructor; cbn [fs_w fs_file fs_sync fs_pw fs_bs fs_pend fs_last]; fold s;
+        [exact Iw|exact Iwf|exact Ipend|exact Ilast|exact Il1|exists R; exact Ifile|exists R0; exact Isync|exact Ipw]. }
     rewrite Iw in Eop. destruct (op_batch_single _ _ _ _ _ Eop) as [b Hb].
     rewrite Iw in Hok, Efop |- *. rewrite Hb in *. cbn [wst w_info] in Hok |- *.
     assert (Hbwf : Forall wf_bytes (fst b)).
     { pose proof (op_batch_wf (wst info s) w1 op Hwf) as H. rewrite Hb in H. inversion H; assumption. }
     assert (Hfit : len (c_img (cstep info s b)) < two32).
-    { destruct flt; [| congruence |]; rewrite Efop in Hok; cbn [fs_ok] in Hok; apply andb_true_iff in Hok as [_ Hok];
+    { destruct flt; [| congruence | |]; rewrite Efop in Hok; cbn [short_acts fs_ok] in Hok;
+        apply andb_true_iff in Hok as [_ Hok];
         unfold batch_fits, image in Hok; rewrite cstate_snoc in Hok; fold s in Hok; lia. }
     destruct (do_op_wst info s op w1 off buf b Eop Hb Hfit) as (-> & -> & ->).
-    assert (Hfile : exists R', apply_wactions (fs_file st) [WWrite (len (c_img s)) (batch_write info s b); WSync]
-                               = c_img s ++ batch_write info s b ++ R').
-    { unfold apply_wactions. cbn [fold_left apply_waction]. rewrite Ifile, to_nat_len, overwrite_app.
-      eexists. reflexivity. }
-    destruct Hfile as [R' Hfile].
-    destruct flt; [| congruence |]; rewrite Efop; clear Efop.
+    assert (Hfile : forall x, exists R', apply_wactions (fs_file st) [WWrite (len (c_img s)) x; WSync]
+                               = c_img s ++ x ++ R' /\
+                               apply_wactions (fs_file st) [WWrite (len (c_img s)) x] = c_img s ++ x ++ R').
+    { intros x. unfold apply_wactions. cbn [fold_left apply_waction]. rewrite Ifile, to_nat_len, overwrite_app.
+      eexists. split; reflexivity. }
+    destruct flt; [| congruence | |]; rewrite Efop; clear Efop.
     + (* success *)
-      constructor; cbn [fs_w fs_file fs_sync fs_pw fs_bs fs_pend]; rewrite ?cstate_snoc; fold s.
+      destruct (Hfile (batch_write info s b)) as (R' & HR' & _).
+      constructor; cbn [fs_w fs_file fs_sync fs_pw fs_bs fs_pend fs_last]; rewrite ?cstate_snoc; fold s.
       * reflexivity.
       * apply chain_wf_snoc; [exact Iwf|]. split; assumption.
       * constructor.
-      * exists R'. rewrite Hfile. cbn [last_of rev cstep c_img]. rewrite <- app_assoc. reflexivity.
-      * exists R'. rewrite Hfile. cbn [cstep c_img]. rewrite <- app_assoc. reflexivity.
       * constructor.
+      * cbn. lia.
+      * exists R'. rewrite HR'. cbn [cstep c_img]. rewrite <- app_assoc. reflexivity.
+      * exists R'. rewrite HR'. cbn [cstep c_img]. rewrite <- app_assoc. reflexivity.
+      * constructor.
+    + (* short write: the first half of the bytes is in the file, the writer is rolled back *)
+      cbn [short_acts]. set (half := firstn (length (batch_write info s b) / 2) (batch_write info s b)).
+      destruct (Hfile half) as (R' & _ & HR').
+      constructor; cbn [fs_w fs_file fs_sync fs_pw fs_bs fs_pend fs_last writes_of]; fold s.
+      * reflexivity.
+      * exact Iwf.
+      * exact Ipend.
+      * apply Forall_forall. intros d Hd. apply filter_In in Hd as [Hd _].
+        rewrite Forall_forall in Ilast. apply Ilast. exact Hd.
+      * etransitivity; [apply filter_len_le|exact Il1].
+      * rewrite HR'. unfold image. fold s.
+        destruct (filter _ (fs_last st)) as [|d l] eqn:Efl.
+        -- eexists. reflexivity.
+        -- assert (Hin : In d (filter (fun d0 => on_diskb (c_img s ++ half ++ R') (len (c_img s)) (batch_write info s d0))
+                                      (fs_last st))) by (rewrite Efl; left; reflexivity).
+           apply filter_In in Hin as [_ Hon]. apply on_diskb_spec in Hon.
+           unfold on_disk, sub in Hon. rewrite to_nat_len, skipn_app_exact in Hon.
+           exists (skipn (length (batch_write info s d)) (half ++ R')). f_equal.
+           rewrite <- Hon at 1. symmetry. apply firstn_skipn.
+      * exists R0. exact Isync.
+      * apply Forall_app. split; [exact Ipw|]. constructor; [reflexivity|constructor].
     + (* the fsync fails: the bytes are in the file, the writer is rolled back *)
-      constructor; cbn [fs_w fs_file fs_sync fs_pw fs_bs fs_pend writes_of]; fold s.
+      destruct (Hfile (batch_write info s b)) as (R' & HR' & _).
+      constructor; cbn [fs_w fs_file fs_sync fs_pw fs_bs fs_pend fs_last writes_of]; fold s.
       * reflexivity.
       * exact Iwf.
       * apply Forall_app. split; [exact Ipend|]. constructor; [split; assumption|constructor].
-      * exists R'. rewrite Hfile, last_of_snoc. reflexivity.
+      * constructor; [split; assumption|constructor].
+      * cbn. lia.
+      * exists R'. rewrite HR'. reflexivity.
       * exists R0. exact Isync.
-      * apply Forall2_app; [exact Ipw|]. constructor; [reflexivity|constructor].
+      * apply Forall_app. split; [exact Ipw|]. constructor; [reflexivity|constructor].
 Qed.
 
 Definition fops_wf (ops : list fop) : Prop := Forall (fun o => op_wf (fst o)) ops.
@@ -362,18 +424,18 @@ Qed.
 (* recovery of a file of such a run *)
 Lemma finv_recover info st :
   hdr_wf info -> finv info st ->
-  let bs' := fs_bs st ++ last_of (fs_pend st) in
+  let bs' := fs_bs st ++ fs_last st in
   no_stale_commit (fs_file st) (len (image info bs')) ->
   recover_state info (fs_file st) = Some (wst info (cstate info bs')).
 Proof.
-  intros Hhw [Iw Iwf Ipend (R & Ifile) _ _] bs' Hns.
+  intros Hhw [Iw Iwf Ipend Ilast Il1 (R & Ifile) _ _] bs' Hns.
+  assert (Hl : fs_last st = [] \/ exists d, fs_last st = [d]).
+  { destruct (fs_last st) as [|d [|d' l]]; [left; reflexivity|right; exists d; reflexivity|cbn in Il1; lia]. }
   assert (Hwf' : chain_wf info c0 bs').
-  { unfold bs', last_of. destruct (rev (fs_pend st)) as [|d l] eqn:E; [rewrite app_nil_r; exact Iwf|].
-    apply chain_wf_snoc; [exact Iwf|]. rewrite Forall_forall in Ipend. apply Ipend.
-    apply in_rev. rewrite E. left. reflexivity. }
+  { unfold bs'. destruct Hl as [->|[d Hd]]; [rewrite app_nil_r; exact Iwf|]. rewrite Hd in *.
+    apply chain_wf_snoc; [exact Iwf|]. inversion Ilast; assumption. }
   assert (Ef : fs_file st = c_img (cstate info bs') ++ R).
-  { rewrite Ifile. unfold bs'. destruct (last_of (fs_pend st)) as [|d l] eqn:E; [rewrite app_nil_r; reflexivity|].
-    assert (l = []) by (unfold last_of in E; destruct (rev (fs_pend st)); inversion E; reflexivity). subst l.
+  { rewrite Ifile. unfold bs'. destruct Hl as [->|[d ->]]; [rewrite app_nil_r; reflexivity|].
     rewrite cstate_snoc. cbn [cstep c_img]. rewrite <- app_assoc. reflexivity. }
   rewrite Ef in Hns |- *. apply recover_behind; assumption.
 Qed.
@@ -383,15 +445,17 @@ Qed.
    on a file that was all zeros: the running writer is the writer of the
    acknowledged batches bs, and recovery of the file returns exactly
      - the writer of bs, or
-     - the writer of bs ++ [d], where d is the batch of the LAST write that
-       failed after the last success (its bytes are then completely in the file),
-   all fields.  So recovery never returns an entry of a failed batch that was
+     - the writer of bs ++ [d], where d = fs_last is the batch of the LAST
+       COMPLETE write whose fsync failed after the last success, provided no
+       later short write damaged its bytes (they are then completely in the file),
+   all fields.  A batch of which a short write left only the first half in the
+   file is never recovered: it is leftovers like any other.  So recovery never returns an entry of a failed batch that was
    followed by another write, never a part of a batch, never a mix of two. *)
 Theorem fail_recover info k0 ops :
   hdr_wf info -> fops_wf ops ->
   let st := frun info k0 ops in
   fs_ok st = true ->
-  let bs' := fs_bs st ++ last_of (fs_pend st) in
+  let bs' := fs_bs st ++ fs_last st in
   fs_w st = wst info (cstate info (fs_bs st)) /\
   (no_stale_commit (fs_file st) (len (image info bs')) ->
    recover_state info (fs_file st) = Some (wst info (cstate info bs'))).
@@ -407,7 +471,7 @@ Theorem fail_recover_from info st0 ops :
   hdr_wf info -> finv info st0 -> fops_wf ops ->
   let st := frun_from st0 ops in
   fs_ok st = true ->
-  let bs' := fs_bs st ++ last_of (fs_pend st) in
+  let bs' := fs_bs st ++ fs_last st in
   fs_w st = wst info (cstate info (fs_bs st)) /\
   (no_stale_commit (fs_file st) (len (image info bs')) ->
    recover_state info (fs_file st) = Some (wst info (cstate info bs'))).
@@ -417,18 +481,27 @@ Proof.
   split; [apply (fi_w _ _ I)|]. apply finv_recover; assumption.
 Qed.
 
-(* after an ACKNOWLEDGED operation a restart is invisible, whatever failed before:
-   recovery returns the running writer itself *)
+(* when no failed batch is complete in the file -- in particular right after an
+   ACKNOWLEDGED write (fstep_ok_last), whatever failed before -- a restart is
+   invisible: recovery returns the running writer itself *)
 Corollary fail_recover_acked info k0 ops :
   hdr_wf info -> fops_wf ops ->
   let st := frun info k0 ops in
-  fs_ok st = true -> fs_pend st = [] ->
+  fs_ok st = true -> fs_last st = [] ->
   no_stale_commit (fs_file st) (len (image info (fs_bs st))) ->
   recover_state info (fs_file st) = Some (fs_w st).
 Proof.
   intros Hhw Hwf st Hok Hp Hns.
   destruct (fail_recover info k0 ops Hhw Hwf Hok) as [Ew Hr]. fold st in Ew, Hr.
-  rewrite Hp in Hr. cbn [last_of rev] in Hr. rewrite app_nil_r in Hr. rewrite Ew. apply Hr. exact Hns.
+  rewrite Hp in Hr. rewrite app_nil_r in Hr. rewrite Ew. apply Hr. exact Hns.
+Qed.
+
+(* an operation that succeeds leaves no candidate behind *)
+Lemma fstep_ok_last st o :
+  fst (fst (do_fop (fs_w st) o)) = WOk -> snd (do_fop (fs_w st) o) <> [] -> fs_last (fstep st o) = [].
+Proof.
+  unfold fstep. destruct (do_fop (fs_w st) o) as [[r w'] acts]. cbn [fst snd]. intros -> Hne.
+  destruct (do_op (fs_w st) (fst o)) as [[r1 w1] acts1]. destruct acts; [congruence|reflexivity].
 Qed.
 
 (* a clean file -- the image of a chain followed by zeros, all of it durable,
@@ -436,14 +509,16 @@ Qed.
    (RecoverFacts.seg_recover_round) -- is a state of such a run *)
 Definition fclean (info : seginfo) (bs : list batch) (k : nat) : fstate :=
   {| fs_w := wst info (cstate info bs); fs_file := image info bs ++ zeros k;
-     fs_sync := image info bs ++ zeros k; fs_pw := []; fs_bs := bs; fs_pend := []; fs_ok := true |}.
+     fs_sync := image info bs ++ zeros k; fs_pw := []; fs_bs := bs; fs_pend := []; fs_last := []; fs_ok := true |}.
 
 Lemma finv_clean info bs k : chain_wf info c0 bs -> finv info (fclean info bs k).
 Proof.
-  intros H. constructor; cbn [fclean fs_w fs_file fs_sync fs_pw fs_bs fs_pend].
+  intros H. constructor; cbn [fclean fs_w fs_file fs_sync fs_pw fs_bs fs_pend fs_last].
   - reflexivity.
   - exact H.
   - constructor.
+  - constructor.
+  - cbn. lia.
   - exists (zeros k). reflexivity.
   - exists (zeros k). reflexivity.
   - constructor.
@@ -451,13 +526,21 @@ Qed.
 
 (* ------------------------------------------------------------------ *)
 (* power loss                                                           *)
+(* a torn write whose length need not be a multiple of 8 (a short write stops
+   anywhere): whole chunks as torn_over, then the last partial chunk new or old *)
+Inductive torn_part : bytes -> bytes -> bytes -> Prop :=
+| tp_full old new T : torn_over old new T -> torn_part old new T
+| tp_tail o1 n1 t1 o2 n2 t2 :
+    torn_over o1 n1 t1 -> length o2 = length n2 -> (length n2 < 8)%nat -> t2 = n2 \/ t2 = o2 ->
+    torn_part (o1 ++ o2) (n1 ++ n2) (t1 ++ t2).
+
 (* the unsynced writes reach the durable image one after the other, each torn
    per 8-byte chunk over what is there (Disk.torn_apply without its collision
-   clause: here the collision hypothesis is no_stale_commit on the image) *)
+   clause: here the collision condition is no_stale_commit on the image) *)
 Inductive torn_writes : bytes -> list (N * bytes) -> bytes -> Prop :=
 | tw_nil s : torn_writes s [] s
 | tw_cons s off new T r s' :
-    torn_over (region s (N.to_nat off) (length new)) new T ->
+    torn_part (region s (N.to_nat off) (length new)) new T ->
     torn_writes (overwrite s (N.to_nat off) T) r s' ->
     torn_writes s ((off, new) :: r) s'.
 
@@ -513,13 +596,6 @@ Qed.
 Lemma tw_nil_eq s s' : s = s' -> torn_writes s [] s'.
 Proof. intros ->. constructor. Qed.
 
-(* the bytes w are in the image at offset p *)
-Definition on_disk (T : bytes) (p : N) (w : bytes) : Prop := sub (N.to_nat p) (length w) T = w.
-Definition on_diskb (T : bytes) (p : N) (w : bytes) : bool := beq_bytes (sub (N.to_nat p) (length w) T) w.
-
-Lemma on_diskb_spec T p w : on_diskb T p w = true <-> on_disk T p w.
-Proof. apply beq_bytes_eq. Qed.
-
 Lemma finv_recover_crash info st T :
   hdr_wf info -> finv info st -> torn_writes (fs_sync st) (fs_pw st) T ->
   let s := cstate info (fs_bs st) in
@@ -529,9 +605,7 @@ Lemma finv_recover_crash info st T :
      no_stale_commit T (p + len (batch_write info s d)) ->
      recover_state info T = Some (wst info (cstate info (fs_bs st ++ [d])))).
 Proof.
-  intros Hhw [Iw Iwf Ipend _ (R0 & Isync) Ipw] HT s p. fold s in Ipend, Isync, Ipw.
-  assert (Hoffs : Forall (fun w => fst w = len (c_img s)) (fs_pw st)).
-  { clear -Ipw. induction Ipw as [|d w ds ws Hw _ IH]; constructor; [subst w; reflexivity|exact IH]. }
+  intros Hhw [Iw Iwf Ipend _ _ _ (R0 & Isync) Hoffs] HT s p. fold s in Ipend, Isync, Hoffs.
   rewrite Isync in HT. destruct (torn_writes_prefix _ _ _ _ Hoffs HT) as [R' ET].
   split.
   - intros Hns. rewrite ET in Hns |- *. apply recover_behind; assumption.
@@ -668,7 +742,7 @@ Qed.
    (2 entries: e1, c2) *)
 Lemma fx_new :
   fs_ok fx_st = true /\
-  fs_bs fx_st = [([fx_e1], false); ([fx_c2], false)] /\ fs_pend fx_st = [] /\
+  fs_bs fx_st = [([fx_e1], false); ([fx_c2], false)] /\ fs_pend fx_st = [] /\ fs_last fx_st = [] /\
   no_stale_commitb (fs_file fx_st) (len (image fx_info (fs_bs fx_st))) = true /\
   recover_state fx_info (fs_file fx_st) = Some (fs_w fx_st) /\
   length (w_offsets (fs_w fx_st)) = 2%nat /\
@@ -720,13 +794,50 @@ Lemma fx_crash_torn :
 Proof.
   assert (Epw : fs_pw fx_st3 = [(fx_p, fx_wa); (fx_p, fx_wb)]) by (vm_compute; reflexivity).
   rewrite Epw. split; [|split].
-  - eapply tw_cons; [apply (torn_over_all_new 9); reflexivity|].
-    eapply tw_cons; [apply (torn_over_all_new 6); reflexivity|].
+  - eapply tw_cons; [apply tp_full, (torn_over_all_new 9); reflexivity|].
+    eapply tw_cons; [apply tp_full, (torn_over_all_new 6); reflexivity|].
     apply tw_nil_eq. vm_compute. reflexivity.
-  - eapply tw_cons; [apply (torn_over_all_new 9); reflexivity|].
-    eapply tw_cons; [apply (torn_over_all_old 6); reflexivity|].
+  - eapply tw_cons; [apply tp_full, (torn_over_all_new 9); reflexivity|].
+    eapply tw_cons; [apply tp_full, (torn_over_all_old 6); reflexivity|].
     apply tw_nil_eq. vm_compute. reflexivity.
-  - eapply tw_cons; [apply (torn_over_all_new 9); reflexivity|].
-    eapply tw_cons; [apply (torn_over_first 2 4); reflexivity|].
+  - eapply tw_cons; [apply tp_full, (torn_over_all_new 9); reflexivity|].
+    eapply tw_cons; [apply tp_full, (torn_over_first 2 4); reflexivity|].
     apply tw_nil_eq. vm_compute. reflexivity.
 Qed.
+
+(* SHORT WRITES.  History 1, a (fsync fails: complete in the file), then
+     fx_ops_pb   b fails with a short write: its first half (24 of 48 bytes = the
+                 frame of b2) replaces the frame of a2: a is no longer complete,
+                 nothing of b can be; recovery returns 1 alone;
+     fx_ops_pa   the retry of a itself fails with a short write: the half written
+                 equals what is there, a is still complete; recovery returns 1, a;
+     fx_ops_pc   after the short write of b, c succeeds over it: recovery returns
+                 1, c -- the running writer. *)
+Definition fx_ops_pb : list fop := firstn 2 fx_ops ++ [(OpAppend [(2, fx_b2); (3, fx_b3)], FWriteShort)].
+Definition fx_ops_pa : list fop := firstn 2 fx_ops ++ [(OpAppend [(2, fx_a2); (3, fx_a3); (4, fx_a4)], FWriteShort)].
+Definition fx_ops_pc : list fop := fx_ops_pb ++ [(OpAppend [(2, fx_c2)], FNone)].
+
+Lemma fx_short_hyps : fops_wf fx_ops_pb /\ fops_wf fx_ops_pa /\ fops_wf fx_ops_pc.
+Proof.
+  unfold fops_wf, fx_ops_pb, fx_ops_pa, fx_ops_pc, fx_ops. cbn [firstn app].
+  repeat split;
+    repeat (apply Forall_cons; [cbn [fst op_wf]; repeat (apply Forall_cons; [apply wf_bytesb_spec; reflexivity|]); apply Forall_nil|]);
+    apply Forall_nil.
+Qed.
+
+Lemma fx_short :
+  let sb := frun fx_info 256 fx_ops_pb in
+  let sa := frun fx_info 256 fx_ops_pa in
+  let sc := frun fx_info 256 fx_ops_pc in
+  (fs_ok sb, fs_bs sb, fs_pend sb, fs_last sb) =
+    (true, [([fx_e1], false)], [([fx_a2; fx_a3; fx_a4], false)], []) /\
+  length (fs_pw sb) = 2%nat /\
+  no_stale_commitb (fs_file sb) (len (image fx_info (fs_bs sb))) = true /\
+  recover_state fx_info (fs_file sb) = Some (fs_w sb) /\
+  (fs_ok sa, fs_bs sa, fs_last sa) = (true, [([fx_e1], false)], [([fx_a2; fx_a3; fx_a4], false)]) /\
+  no_stale_commitb (fs_file sa) (len (image fx_info (fs_bs sa ++ fs_last sa))) = true /\
+  recover_state fx_info (fs_file sa) = Some (wst fx_info (cstate fx_info (fs_bs sa ++ fs_last sa))) /\
+  (fs_ok sc, fs_bs sc, fs_last sc) = (true, [([fx_e1], false); ([fx_c2], false)], []) /\
+  no_stale_commitb (fs_file sc) (len (image fx_info (fs_bs sc))) = true /\
+  recover_state fx_info (fs_file sc) = Some (fs_w sc).
+Proof. vm_compute. repeat split; reflexivity. Qed.
